@@ -3,6 +3,7 @@ package main
 // C19: core builtins and bundled package tables agree with their Go counterparts.
 
 import (
+	"net"
 	"encoding/json"
 	"fmt"
 	"go/ast"
@@ -343,6 +344,22 @@ func nativeToFloat(v interface{}) float64 {
 	return 0
 }
 
+type c19Named []byte
+type c19Str string
+type c19Stringer int64
+
+func (c19Stringer) String() string { return "stringer!" }
+
+// Go values a host may bind: the conversion builtins must treat them as Go does
+func c19HostValues() map[string]interface{} {
+	return map[string]interface{}{
+		"hv_bytes": []byte("hi"), "hv_ip": net.ParseIP("192.168.0.1"), "hv_mac": net.HardwareAddr{0, 27, 68, 17, 58, 183}, "hv_named": c19Named("hi"),
+		"hv_str": c19Str("named"), "hv_stringer": c19Stringer(7), "hv_dur": 1500 * time.Millisecond, "hv_err": fmt.Errorf("an error"), "hv_i8": int8(-5),
+		"hv_u16": uint16(500), "hv_f32": float32(0.5), "hv_ints": []int64{1, 2}, "hv_strs": []string{"a", "b"}, "hv_map": map[string]int64{"k": 1}, "hv_ptr": new(int64),
+		"hv_runes": []rune("hé"), "hv_nilbytes": []byte(nil), "hv_empty": []byte{},
+	}
+}
+
 type litVal struct {
 	src string
 	val interface{}
@@ -444,6 +461,33 @@ func c19Builtins(limit int, rnd *Rand) []c19Case {
 			add("len("+u.src+")", projAny(int64(len(x))), "len: Go length")
 		}
 	}
+	hv := c19HostValues()
+	var hnames []string
+	for n := range hv {
+		hnames = append(hnames, n)
+	}
+	sort.Strings(hnames)
+	for _, n := range hnames {
+		v := hv[n]
+		want := fmt.Sprint(v)
+		if b, ok := v.([]byte); ok {
+			want = string(b)
+		}
+		if n != "hv_ptr" { // a pointer prints its address
+			add("toString("+n+")", projAny(want), "toString of a Go value: Go's default formatting (the string itself for []byte only)")
+		}
+		add("typeOf("+n+")", projAny(reflect.TypeOf(v).String()), "typeOf: Go type name of a Go value")
+		add("kindOf("+n+")", projAny(reflect.TypeOf(v).Kind().String()), "kindOf: Go kind name of a Go value")
+		rv := reflect.ValueOf(v)
+		switch rv.Kind() {
+		case reflect.Slice, reflect.Map, reflect.String:
+			add("len("+n+")", projAny(int64(rv.Len())), "len of a Go value")
+		}
+		if rv.Type().ConvertibleTo(reflect.TypeOf(int64(0))) && rv.Kind() != reflect.String {
+			add("toInt("+n+")", projAny(rv.Convert(reflect.TypeOf(int(0))).Int()), "toInt of a Go number: Go's conversion")
+			add("toFloat("+n+")", projAny(rv.Convert(reflect.TypeOf(float64(0))).Float()), "toFloat of a Go number: Go's conversion")
+		}
+	}
 	add("toChar(65)", projAny("A"), "toChar")
 	add("toChar(233)", projAny("é"), "toChar")
 	add("toIntSlice([1, 2.5, \"x\", nil, true])", projAny([]int64{1, 2, 0, 0, 0}), "typed slice: element-wise, zero for unconvertible")
@@ -479,6 +523,9 @@ func c19Child(casesFile, outFile string, start int) error {
 	}
 	defer f.Close()
 	e := core.Import(env.NewEnv())
+	for name, v := range c19HostValues() {
+		e.Define(name, v)
+	}
 	for i := start; i < len(cases); i++ {
 		done := make(chan string, 1)
 		go func(src string, sorted bool) {
